@@ -80,7 +80,7 @@ for meth, op, exc, mine, theirs in (("__or__", "or", "CannotBeUnionedException",
         params={"self": "classobj", "pre": OPERAND}, requires=REQ, raises={exc: BAD},
         may_raise=["EmptyClassException", "GlobalWordCharSubtractionException"] if op == "sub" else [],
         ensures=f"ISCLS(result) and NEGATED(result) == NEGATED(self) and GHOSTOP(result)[0] == '{op}' and " + operand_ok(theirs, mine),
-        returns="class_wrapped", frame=[])
+        returns="class_wrapped", frame=[], concrete_native=True)
 C[M + "__invert__"] = dict(
     params={"self": "classobj"}, raises={},
     ensures="NEGATED(result) == (not NEGATED(self)) and SAME_TEXT(CLASSARG(result), '[' + ('' if NEGATED(self) else '^') + "
